@@ -229,16 +229,18 @@ theorem spPreorder_subtrees (A : Pat) (p : Array Nat) (hp : isPerm A.n p = true)
 recorded by relax_snode are disjoint consecutive ranges `[s, relax_end s]`, each of them the whole
 subtree of its last column, that column having fewer than `relax` descendants, and every leaf lies in
 one.  Proved below: the range part (well-formed, ordered, no range starts inside another - hence
-disjoint).  Missing: "whole subtree" and "< relax descendants" (needs the correctness of the
-`descendants` count); the driver evaluates exactly these clauses on every run (`relaxProp`).
+disjoint).  Missing: "whole subtree", and that the `descendants` array of the first loop is the true
+descendant count; the driver evaluates exactly these clauses on every run (`relaxProp`).
 -/
 /-- **relax_snode, ranges** (partial).  On every heap-ordered forest: `relax_end` has `n` entries; an entry
 is EMPTY (-1) or the last column `e` of a range `s ≤ e < n`; no range starts inside `(s, e]`, so the
-recorded ranges are pairwise disjoint. -/
+recorded ranges are pairwise disjoint; a range of more than one column ends at a column whose
+`descendants` count (first loop of the routine) is below `relax`. -/
 theorem relaxSnode_ranges_partial (n relax : Nat) (et : Array Nat) (h : Heap n et) :
     (relaxSnode n relax et).2.size = n ∧
     ∀ s < n, (relaxSnode n relax et).2.getD s (-1) = -1 ∨
       ∃ e : Nat, (relaxSnode n relax et).2.getD s (-1) = Int.ofNat e ∧ s ≤ e ∧ e < n ∧
+        (s < e → (descendants n et).getD e 0 < relax) ∧
         ∀ t, s < t → t ≤ e → (relaxSnode n relax et).2.getD t (-1) = -1 := by
   unfold relaxSnode
   simp only
@@ -247,9 +249,9 @@ theorem relaxSnode_ranges_partial (n relax : Nat) (et : Array Nat) (h : Heap n e
       simp only [Array.getD_eq_getD_getElem?, Array.getElem?_replicate]; split <;> rfl, fun s hs => by omega⟩
   refine ⟨hs, fun s hsn => ?_⟩
   by_cases hsj : s < j'
-  · rcases hlo s hsj with h1 | ⟨e, h1, h2, _, h4, h5⟩
+  · rcases hlo s hsj with h1 | ⟨e, h1, h2, _, h4, h6, h5⟩
     · exact Or.inl h1
-    · exact Or.inr ⟨e, h1, h2, h4, h5⟩
+    · exact Or.inr ⟨e, h1, h2, h4, h6, h5⟩
   · exact Or.inl (hhi s (by omega))
 
 
